@@ -239,16 +239,17 @@ Theorem C19_export_polyline : forall P n_pts custom, P <> [] -> (point_dim P = 2
   let ts := curve_params Rops n_pts custom in
   (Forall unit_closed ts ->
      as_polyline Rops P n_pts custom =
-       Ok (map (fun t => padf (bernstein_vec P t)) ts, ts, polyline_edges n_pts (Z.of_nat (length ts)))) /\
+       Ok (map (fun t => padf (bernstein_vec P t)) ts, ts,
+           polyline_edges n_pts (Z.of_nat (length ts)) (Z.of_nat (length ts)))) /\
   (custom = None -> Forall unit_closed ts) /\
   (forall t, In t ts -> ~ unit_closed t -> as_polyline Rops P n_pts custom = Err EOutOfRange).
 Proof. exact export_polyline. Qed.
 Print Assumptions C19_export_polyline.
 
-Theorem C19_export_polyline_edges : forall n_pts m,
-  Z.of_nat (length (polyline_edges n_pts m)) = Z.max 0 (m - 1) /\
-  (forall i, (0 <= i < m - 1)%Z -> nth_error (polyline_edges n_pts m) (Z.to_nat i) = Some (i, i + 1)%Z) /\
-  (forall a b, In (a, b) (polyline_edges n_pts m) -> (0 <= a /\ b = a + 1 /\ b < m)%Z).
+Theorem C19_export_polyline_edges : forall n_pts k m,
+  Z.of_nat (length (polyline_edges n_pts k m)) = Z.max 0 (m - 1) /\
+  (forall i, (0 <= i < m - 1)%Z -> nth_error (polyline_edges n_pts k m) (Z.to_nat i) = Some (i, i + 1)%Z) /\
+  (forall a b, In (a, b) (polyline_edges n_pts k m) -> (0 <= a /\ b = a + 1 /\ b < m)%Z).
 Proof. exact polyline_edges_spec. Qed.
 Print Assumptions C19_export_polyline_edges.
 
